@@ -255,6 +255,41 @@ func checkC05(c *Ctx) {
 			rc.Check(okp, first.Name(), "marker follows pool store on every path", storePos.Pos(), "marker always set with the pool", "the transaction pool is installed on the statement without setting the marker: CommitOrRollbackTransaction will never finish this transaction")
 			rc.Check(fs.Has(fNil(fdb+".Error")) && fs.Has(fFalse(fdb+".Config.SkipDefaultTransaction")), first.Name(), "begin only without prior error and with default transactions", storePos.Pos(), "guarded by Error == nil && !SkipDefaultTransaction", "BeginTransaction opens a transaction although an error is already recorded or default transactions are disabled")
 		}
+		// the marker key written by BeginTransaction is the key read by CommitOrRollbackTransaction
+		instGet := p.Method(dbT, "InstanceGet")
+		keyOf := func(f *FuncSrc, m *types.Func) (string, string) {
+			for _, call := range callsIn(f) {
+				if fn, _ := typeutil.Callee(f.Pkg.TypesInfo, call).(*types.Func); fn == m && len(call.Args) >= 1 {
+					k, _ := constString(f.Pkg.TypesInfo, call.Args[0])
+					return k, recvOfExpr(f.Pkg.TypesInfo, call)
+				}
+			}
+			return "", ""
+		}
+		setKey, setRecv := keyOf(first, instSet)
+		getKey, getRecv := keyOf(last, instGet)
+		rc.Check(setKey != "" && setKey == getKey, last.Name(), "TABLE-AGREE(marker key set by begin, read by commit)", last.Body.Pos(), "same instance key "+setKey, "the started-transaction marker is stored under key "+setKey+" but looked up under "+getKey+": the implicit transaction is never committed nor rolled back")
+		rc.Check(setRecv == fdb && getRecv == db, last.Name(), "marker set and read on the operation's handle", last.Body.Pos(), "instance-scoped to the executor's *DB", "the marker is stored or read on a handle other than the executor's own *DB")
+		// Commit/Rollback run on the executor's own handle; the pool installed is the begun transaction's
+		for _, call := range callsIn(last) {
+			if fn, _ := typeutil.Callee(info, call).(*types.Func); fn == commitM || fn == rollbackM {
+				rc.Check(recvOfExpr(info, call) == db, last.Name(), fn.Name()+" on the operation's handle", call.Pos(), "finishes the transaction the operation ran on", fn.Name()+" is called on "+recvOfExpr(info, call)+", not on the executor's handle whose pool is the implicit transaction")
+			}
+		}
+		if sp, ok := storePos.(*ast.AssignStmt); ok && sp != nil {
+			var beginVar string
+			ast.Inspect(first.Body, func(n ast.Node) bool {
+				if as, ok := n.(*ast.AssignStmt); ok && len(as.Lhs) == 1 && len(as.Rhs) == 1 {
+					if ce, ok := unparen(as.Rhs[0]).(*ast.CallExpr); ok {
+						if fn, _ := typeutil.Callee(finfo, ce).(*types.Func); fn == beginM {
+							beginVar = canon(finfo, as.Lhs[0])
+						}
+					}
+				}
+				return true
+			})
+			rc.Check(beginVar != "" && canon(finfo, sp.Rhs[0]) == beginVar+".Statement.ConnPool", first.Name(), "installed pool is the begun transaction", sp.Pos(), "db.Statement.ConnPool = <begun>.Statement.ConnPool", "BeginTransaction installs "+canon(finfo, sp.Rhs[0])+" instead of the pool of the transaction it has just begun")
+		}
 		// other Begin errors reach db.Error
 		propagates := false
 		ast.Inspect(first.Body, func(n ast.Node) bool {
